@@ -377,3 +377,207 @@ def replay_metrics(case):
     finally:
         m.sw.close()
     return out
+
+
+def make_poll_machine(ctx, log):
+    class PollMachine(RuleBasedStateMachine):
+        """PollExecutor over a manual base, driven one operation at a time.  At quiescent points there is no
+        'in transition' slack: every poll call must have received EXACTLY the descriptors of the futures that
+        were eligible (delegate finished successfully) and unresolved when it ran."""
+
+        PFN = "ex.L0.poll"
+
+        def __init__(self):
+            RuleBasedStateMachine.__init__(self)
+            self.sw = stepwise.StepWorld()
+            self.built = False
+            self.n = 0
+            self.history = []
+            self.interval = None
+            self.after = {}
+            self.seen_calls = 0
+            self.eligible = {}    # fut -> sightings so far
+            self.resolved = set()
+            self.failed = set()
+            self.pending_delegate = []  # futures whose job has not been run yet (in job order)
+            self.job_of = {}
+
+        def teardown(self):
+            ops = list(self.history)
+            nt = any(o[0] in ("cancel", "notify") for o in ops) and self.seen_calls >= 2
+            ctx.case({"machine": "poll", "interval": self.interval, "after": self.after, "ops": ops}, nt,
+                     ["machine:poll", "len:%d" % min(len(ops), 12), "polls:%d" % min(self.seen_calls, 9)],
+                     sample={"machine": "poll", "interval": self.interval, "after": self.after, "ops": ops})
+            self.sw.close()
+
+        def _fail(self, sig, detail):
+            if sig in ctx.known:
+                ctx.excluded_known[sig] += 1
+                return
+            if sig in ctx.suppressed:
+                return
+            v = MachineViolation(sig, detail)
+            v.case = {"machine": "poll", "interval": self.interval, "after": self.after, "ops": list(self.history)}
+            raise v
+
+        def _do(self, op):
+            self.history.append(op)
+            return self.sw.do(op)
+
+        @initialize(interval=st.sampled_from([0.5, 2.0]), after=st.lists(st.sampled_from([1, 2, 3, None]), min_size=6, max_size=6))
+        def build(self, interval, after):
+            self.interval = interval
+            self.after = dict(("f%d.fn" % i, {"after": a}) for i, a in enumerate(after))
+            r = self.sw.do(["build", "ex", {"base": {"kind": "manual"}, "layers": [{"kind": "poll", "interval": interval, "per_sub": self.after}]}])
+            assert r[0] == "ok", r
+            self.built = True
+            self._check_polls()
+
+        @precondition(lambda self: self.built and self.n < 6)
+        @rule(fails=st.sampled_from([False, False, False, True]))
+        def submit(self, fails):
+            f = "f%d" % self.n
+            self.job_of[f] = self.n
+            self.n += 1
+            self._do(["submit", "ex", f, {"script": [["raise", "E0"]] if fails else [["tag"]]}])
+            self.pending_delegate.append((f, fails))
+            self._check_polls()
+
+        @precondition(lambda self: self.built and len(self.pending_delegate) > 0)
+        @rule(data=st.data())
+        def run(self, data):
+            f, fails = data.draw(st.sampled_from(self.pending_delegate))
+            self.pending_delegate.remove((f, fails))
+            self._do(["run", "ex", self.job_of[f]])
+            if fails:
+                self.failed.add(f)
+            else:
+                self.eligible[f] = 0
+            self._check_polls(expect_prompt=not fails, why="eligible")
+
+        @precondition(lambda self: self.built and self.n > 0)
+        @rule(data=st.data())
+        def cancel(self, data):
+            f = "f%d" % data.draw(st.integers(0, self.n - 1))
+            r = self._do(["cancel", f])
+            if r[0] != "ok":
+                self._fail("C08:machine:cancel-raised", {"result": r})
+                return
+            if r[1] is True:
+                self.resolved.add(f)
+                self.eligible.pop(f, None)
+                self.pending_delegate = [(g, x) for g, x in self.pending_delegate if g != f]
+            self._check_polls()
+
+        @precondition(lambda self: self.built)
+        @rule()
+        def notify(self):
+            self._do(["notify", "ex"])
+            self._check_polls(expect_prompt=True, why="notify")
+
+        @precondition(lambda self: self.built)
+        @rule(d=st.sampled_from([0.25, 0.5, 2.0, 4.5]))
+        def advance(self, d):
+            self.history.append(["advance", d])
+            # let time pass timer by timer so that every poll call is checked against the state it ran in
+            left = d
+            step = 0.25
+            while left > 1e-9:
+                self.sw.advance(min(step, left))
+                left -= step
+                self._check_polls()
+
+        def _check_polls(self, expect_prompt=False, why=None):
+            """Consume the poll calls made since the last look; each must show exactly the eligible, unresolved futures."""
+            calls = [e for e in self.sw.s.events if e[3] == "poll_call" and e[4]["fn"] == self.PFN]
+            new = calls[self.seen_calls:]
+            if expect_prompt and not new:
+                self._fail("C08:machine:poll-not-prompt:%s" % why, {"now": self.sw.now})
+            for c in new:
+                import models
+                shown = sorted((models.origin(r) or [0, "?"])[1][:-3] for r in c[4]["results"])
+                want = sorted(self.eligible)
+                if shown != want:
+                    extra = [f for f in shown if f not in want]
+                    missing = [f for f in want if f not in shown]
+                    kind = "duplicate" if len(set(shown)) != len(shown) else "stale-descriptor" if extra else "descriptor-missing"
+                    self._fail("C08:machine:%s" % kind, {"call": c[4]["k"], "shown": shown, "expected": want, "extra": extra, "missing": missing})
+                # the scripted poll function yields on the n-th sighting
+                for f in list(self.eligible):
+                    self.eligible[f] += 1
+                    a = self.after.get(f + ".fn", {}).get("after", 1)
+                    if a is not None and self.eligible[f] >= a:
+                        self.resolved.add(f)
+                        del self.eligible[f]
+            self.seen_calls = len(calls)
+
+        @invariant()
+        def outcomes(self):
+            if not self.built:
+                return
+            for f in sorted(self.resolved | self.failed):
+                r = self.sw.do(["state", f])
+                if r[0] == "ok" and not r[1]["done"]:
+                    self._fail("C08:machine:resolved-future-not-done", {"fut": f, "state": r[1]})
+            for f in sorted(self.eligible):
+                r = self.sw.do(["state", f])
+                if r[0] == "ok" and r[1]["done"]:
+                    self._fail("C08:machine:done-without-yield", {"fut": f, "state": r[1]})
+
+    return PollMachine
+
+
+def replay_poll(case):
+    ctx = harness.ShardCtx({}, [])
+    M = make_poll_machine(ctx, [])
+    m = M()
+    out = []
+    try:
+        m.interval = case["interval"]
+        m.after = case["after"]
+        m.sw.do(["build", "ex", {"base": {"kind": "manual"}, "layers": [{"kind": "poll", "interval": m.interval, "per_sub": m.after}]}])
+        m.built = True
+        m._check_polls()
+        for op in case["ops"]:
+            try:
+                if op[0] == "submit":
+                    fails = op[3]["script"][0][0] == "raise"
+                    f = op[2]
+                    m.job_of[f] = m.n
+                    m.n += 1
+                    m._do(op)
+                    m.pending_delegate.append((f, fails))
+                    m._check_polls()
+                elif op[0] == "run":
+                    f = [g for g, j in m.job_of.items() if j == op[2]][0]
+                    fails = [x for g, x in m.pending_delegate if g == f]
+                    m.pending_delegate = [(g, x) for g, x in m.pending_delegate if g != f]
+                    m._do(op)
+                    if fails and fails[0]:
+                        m.failed.add(f)
+                    elif fails:
+                        m.eligible[f] = 0
+                    m._check_polls(expect_prompt=bool(fails) and not fails[0], why="eligible")
+                elif op[0] == "cancel":
+                    r = m._do(op)
+                    if r[0] == "ok" and r[1] is True:
+                        m.resolved.add(op[1])
+                        m.eligible.pop(op[1], None)
+                        m.pending_delegate = [(g, x) for g, x in m.pending_delegate if g != op[1]]
+                    m._check_polls()
+                elif op[0] == "notify":
+                    m._do(op)
+                    m._check_polls(expect_prompt=True, why="notify")
+                elif op[0] == "advance":
+                    left = op[1]
+                    while left > 1e-9:
+                        m.sw.advance(min(0.25, left))
+                        left -= 0.25
+                        m._check_polls()
+                m.outcomes()
+            except MachineViolation as v:
+                out.append({"signature": v.signature, "detail": v.detail})
+                break
+    finally:
+        m.sw.close()
+    return out
